@@ -483,6 +483,62 @@ def program(classes, cname, mname):
     return alpha("; ".join(acts(m.body, single_defs(m))), local_names(m))
 
 
+# ---------------------------------------------------------------- format-call tables (print worker, region saver)
+
+def format_table(classes, cname, mname, fmt_attr, skip=()):
+    """the keyword arguments of the one call self.<fmt_attr>.format(...) reached from <cname>.<mname>(self, message), with locals
+    replaced by their definitions (message[0], message[1] for `a, b = message`) and helper methods of the class followed into
+    when they consist of assignments and one return"""
+    cls = classes.get(cname)
+    if cls is None:
+        raise TranslationError("class %s not found" % cname)
+    m = resolve(classes, cls, mname)
+    if m is None or [a.arg for a in m.args.args][:1] != ["self"] or len(m.args.args) != 2:
+        raise TranslationError("%s.%s(self, message) not found" % (cname, mname))
+
+    class Sub(ast.NodeTransformer):
+        def __init__(self, mp):
+            self.mp = mp
+
+        def visit_Name(self, n):
+            if isinstance(n.ctx, ast.Load) and n.id in self.mp:
+                return ast.copy_location(ast.parse(self.mp[n.id], mode="eval").body, n)
+            return n
+
+    def subst(e, mp):
+        return ast.unparse(Sub(mp).visit(ast.parse(ast.unparse(e), mode="eval").body))
+
+    found = []
+
+    def walk_fn(fn, mp, depth):
+        mp = dict(mp)
+        for st in fn.body:
+            if isinstance(st, ast.Expr) and isinstance(st.value, ast.Constant):
+                continue
+            for c in [x for x in ast.walk(st) if isinstance(x, ast.Call)]:
+                if isinstance(c.func, ast.Attribute) and c.func.attr == "format" and ast.unparse(c.func.value) == "self." + fmt_attr:
+                    if c.args:
+                        bad(c, "positional arguments in the format call")
+                    found.append(sorted("%s=%s" % (k.arg, subst(k.value, mp)) for k in c.keywords if k.arg not in skip))
+                elif isinstance(c.func, ast.Attribute) and isinstance(c.func.value, ast.Name) and c.func.value.id == "self" and depth < 2:
+                    h = resolve(classes, cls, c.func.attr)
+                    if h is not None and c.func.attr not in KEEP and not c.keywords and len(h.args.args) == len(c.args) + 1 and any(
+                            isinstance(x, ast.Call) and isinstance(x.func, ast.Attribute) and x.func.attr == "format" for x in ast.walk(h)):
+                        walk_fn(h, {a.arg: "(%s)" % subst(x, mp) if not isinstance(x, ast.Name) else subst(x, mp) for a, x in zip(h.args.args[1:], c.args)}, depth + 1)
+            if isinstance(st, ast.Assign) and len(st.targets) == 1:
+                t = st.targets[0]
+                if isinstance(t, ast.Tuple) and all(isinstance(x, ast.Name) for x in t.elts) and isinstance(st.value, ast.Name):
+                    src = mp.get(st.value.id, st.value.id)
+                    for i, x in enumerate(t.elts):
+                        mp[x.id] = "%s[%d]" % (src, i)
+                elif isinstance(t, ast.Name) and not any(isinstance(x, ast.Call) and ast.unparse(x.func).endswith(".format") for x in ast.walk(st.value)):
+                    mp[t.id] = "(%s)" % subst(st.value, mp) if not isinstance(st.value, (ast.Name, ast.Attribute, ast.Subscript)) else subst(st.value, mp)
+    walk_fn(m, {m.args.args[1].arg: "message"}, 0)
+    if len(found) != 1:
+        raise TranslationError("%s.%s: %d calls of self.%s.format found" % (cname, mname, len(found), fmt_attr))
+    return found[0]
+
+
 def emit(repo):
     wk = ast.parse(open(os.path.join(repo, "auditok", "workers.py")).read())
     classes = {n.name: n for n in wk.body if isinstance(n, ast.ClassDef)}
@@ -500,6 +556,8 @@ def emit(repo):
     out.append("Open Scope string_scope.")
     for name, c, m in PROGRAMS:
         out.append("Definition %s_gen : list act := [%s]." % (name, program(classes, c, m)))
+    out.append("Definition print_fields_gen : list String.string := [%s]." % "; ".join(q(x) for x in format_table(classes, "PrintWorker", "_process_message", "_print_format", skip=("timestamp",))))
+    out.append("Definition save_fields_gen : list String.string := [%s]." % "; ".join(q(x) for x in format_table(classes, "RegionSaverWorker", "_process_message", "_filename_format")))
     # StreamSaverWorker / joiner writers use the base class loop: no override of run or _get_message between them and Worker
     return "\n".join(out) + "\n"
 
